@@ -23,6 +23,7 @@ from mir import Unsupported  # noqa: E402
 from jobmarket import BrokerModel  # noqa: E402
 from bmc import Protocol  # noqa: E402
 import checks
+from symex import SOLVER_STATS
 import workerloop  # noqa: E402
 import blockloop  # noqa: E402
 import spawnflow  # noqa: E402
@@ -363,7 +364,8 @@ def run(pid, tier, seed, replay_path=None):
             "functions_encoded": info.get("functions_encoded", []),
             "broker_calls_by_checker_code": info.get("broker_calls_by_checker_code", {}),
             "obligations": n_ob, "discharged": n_ok, "queries": n_ob + info.get("z3_feasibility_queries", 0),
-            "solver_time_s": round(sum(o.get("solver_s", 0) for o in obligations), 1),
+            "solver_time_s": round(sum(o.get("solver_s", 0) for o in obligations) + SOLVER_STATS["time"], 1),
+            "solver_queries_static_and_pruning": SOLVER_STATS["queries"],
             "evaluations": n_ob, "distinct_nontrivial": n_ok,
             "rule": "one evaluation = one z3 validity/BMC query over all schedules and values within the bound; non-trivial = its premise is satisfiable (reachability witnesses required)",
             "samples": obligations[:60] + samples,
